@@ -78,6 +78,17 @@ class GaussRamp(Gauss):
         return x_out
 
 
+class GaussHole(Gauss):
+    """Gaussian likelihood that is exactly zero (log L = -inf) on part of the prior
+    (x0 > 2.5): legal for both samplers, exercises -inf weights."""
+
+    def log_likelihood(self, x):
+        out = np.zeros(x.size)
+        for n in self.names:
+            out = out + x[n] * x[n] * (-0.5)
+        return np.where(x[self.names[0]] > 2.5, -np.inf, out)
+
+
 class Guarded:
     """Mixin-free wrapper: records every likelihood call of a model and checks
     that every row is inside the prior support (C09 likelihood-call guard)."""
@@ -89,6 +100,7 @@ class Guarded:
         self.bad = []
         self.kill_at = None
         orig = model.log_likelihood
+        model._verif_orig_log_likelihood = orig
 
         def wrapped(x, _orig=orig):
             xa = np.atleast_1d(x)
@@ -121,6 +133,8 @@ def make(name="G2", **kw):
         return Gauss(3, **kw)
     if name == "G4":
         return Gauss(4, **kw)
+    if name == "G2hole":
+        return GaussHole(2, **kw)
     if name == "G2ramp":
         return GaussRamp(2, **kw)
     raise ValueError(name)
